@@ -53,6 +53,12 @@ TC = T("GoTimedCheck", [
     ("tie_gate_Check", "CM.GoTie.GoTimedCheck.go_Check_eq", "`Check` is the model's `TC.check`: answer, gate afterwards, lock released, closures in step"),
     ("tie_gate_fire", "CM.GoTie.GoTimedCheck.go_fire_eq", "the timer callback is the model's `TC.fire`")])
 
+FAN_RUN = [((("tie_fanout_run_%s" % k), "CM.GoTie.GoFanout.run_%s" % k, "`RunMetricsCollection.%s` tells every run collector exactly once, in order" % k), "T_GoFanout") for k in KINDS]
+FAN_FB = [((("tie_fanout_fb_%s" % k), "CM.GoTie.GoFanout.fb_%s" % k, "`FallbackMetricsCollection.%s` tells every fallback collector exactly once, in order" % k), "T_GoFanout")
+          for k in ("Success", "ErrFailure", "ErrConcurrencyLimitReject")]
+FAN_CIRC = [((("tie_fanout_circuit_%s" % k), "CM.GoTie.GoFanout.circ_%s" % k, "`MetricsCollection.%s` tells every circuit-level collector exactly once, in order" % k), "T_GoFanout")
+            for k in ("Opened", "Closed")]
+
 PROPS = {
     "C01": ("load shedding: who is admitted is decided by `allowNewRun` / `run`",
             [C("IsOpen"), C("allowNewRun"), RUN]),
@@ -79,13 +85,13 @@ PROPS = {
     "C04": ("the gauges and limits: `throttleConcurrentCommands`, the deferred decrements in `run` / `fallback`, the published limits",
             [C("throttleConcurrentCommands"), C("ConcurrentCommands"), C("ConcurrentFallbacks"), RUN, FALLBACK] + LIVECFG),
     "C05": ("the classification chain of `run`",
-            [C("checkErrBadRequest"), C("checkErrTimeout"), C("checkErrInterrupt"), C("checkErrFailure"), C("checkSuccess"), RUN] + ALL),
-    "C06": ("fallback rules: `Execute` and `fallback`", [FALLBACK, EXECUTE, RUNENTRY]),
+            [C("checkErrBadRequest"), C("checkErrTimeout"), C("checkErrInterrupt"), C("checkErrFailure"), C("checkSuccess"), RUN] + FAN_RUN + ALL),
+    "C06": ("fallback rules: `Execute` and `fallback`", [FALLBACK, EXECUTE, RUNENTRY] + FAN_FB),
     "C07": ("contexts: the derived deadline context in `run`, the caller's context everywhere else", [RUN, FALLBACK, EXECUTE]),
     "C08": ("overrides and pass-through: `IsOpen`, `allowNewRun`, the transitions, `Execute`'s Disabled branch, the published flags",
             [C("IsOpen"), C("isEmptyOrNil"), C("allowNewRun"), C("openCircuit"), C("close"), C("attemptToOpen"), EXECUTE] + LIVECFG),
     "C09": ("transitions and their notifications",
-            [C("IsOpen"), C("openCircuit"), C("close"), C("attemptToOpen"), C("OpenCircuit"), C("CloseCircuit"), C("checkSuccess"), C("checkErrFailure"), C("checkErrTimeout")]),
+            [C("IsOpen"), C("openCircuit"), C("close"), C("attemptToOpen"), C("OpenCircuit"), C("CloseCircuit"), C("checkSuccess"), C("checkErrFailure"), C("checkErrTimeout")] + FAN_CIRC),
     "C10": ("panics: the deferred calls of `run` and `fallback` run on every exit", [RUN, FALLBACK, EXECUTE]),
     "C12": ("every timestamp is a reading of the configured clock: all translated functions of circuit.go",
             [C("now"), C("OpenCircuit"), C("CloseCircuit"), RUN, FALLBACK] + ALL),
@@ -107,13 +113,15 @@ PROPS = {
 
 # which regenerated units each property's tie depends on (-> lib/props.py "generated")
 UNITS = {"F_": "gocircuit", "All": "gocircuit", "T_GoHOpener": "gohopener", "T_GoHCloser": "gohcloser", "T_GoConsec": "goconsec", "T_GoRunStats": "gorunstats",
-         "T_GoFbStats": "gofbstats", "T_GoSlo": "goslo", "T_GoTimedCheck": "gotimedcheck", "T_GoLiveCfg": "golivecfg"}
+         "T_GoFbStats": "gofbstats", "T_GoSlo": "goslo", "T_GoTimedCheck": "gotimedcheck", "T_GoLiveCfg": "golivecfg",
+         "T_GoFanout": ["gofanrun", "gofanfb", "gofancirc"]}
 
 def units_of(prop):
     us = []
     for _, mod in PROPS[prop][1]:
         u = UNITS["F_"] if mod.startswith("F_") else UNITS[mod]
-        if u not in us: us.append(u)
+        for x in (u if isinstance(u, list) else [u]):
+            if x not in us: us.append(x)
     return us
 
 def main(only=None):
